@@ -63,7 +63,7 @@ def cases(tier, salts):
                                     out.append({"k": "sfista", "set": sname, "g": list(g), "sc": sc, "delta": dl, "H": hf,
                                                 "reg": reg, "salt": salt})
         # (c) regularised trust_region_step on real controllers
-        if salt == 0 or tier == "thorough":
+        if salt == 0 or (tier == "thorough" and salt == 1):
             for reg in ("l1", "l2"):
                 for lam in (1e-2, 1.0):
                     # constraint kind: none / bounds / general projections (each is a different branch of the step routine);
